@@ -75,6 +75,8 @@ def run(repo, rep):
     _log_rule(repo, rep, 'C11', 'C11.Z2')
     from ..api_pitfalls import truth_rule as _truth_rule
     _truth_rule(repo, rep, 'C11', 'C11.Z4')
+    from ..api_pitfalls import attribute_rule as _attribute_rule
+    _attribute_rule(repo, rep, 'C11', 'C11.Z5')
     hier = exc_hierarchy(repo)
     ae = repo.cls('applicationentity', 'AEBase')
     rq = repo.cls('asceprovider', 'AssociationRequester')
